@@ -79,18 +79,32 @@ Theorem C18_failure_is_identity_in_spec : forall st r c, spec_result st r = RFai
 Proof. exact spec_apply_fail. Qed.
 Print Assumptions C18_failure_is_identity_in_spec.
 
-(** every decided result is the result of the sequential execution in log order; the successes in
-    that order carry increasing versions; whenever no handler is between its object write and its
-    version write, (objects, version) is the replay of the successful requests in version order *)
+(** every decided result is the result of the sequential execution in log order (a handler cut short by
+    a failing cluster operation - LFault - is an entry too: it keeps its object write if already done and
+    never writes a version); the successes in that order carry increasing versions; whenever no handler
+    is between its object write and its version write, (objects, version) is the replay of the entries
+    with an effect - and, if no handler was cut short after its object write, of exactly the successful
+    requests in version order *)
 Theorem C18_store_is_sequential_replay : forall (cfg : tid -> thr) (st0 : store) sched s,
   run ideal cfg (init st0) sched = Some s ->
   let oks := filter is_ok (log s) in
   legal st0 (log s) /\
-  legal st0 oks /\
+  legal st0 (filter has_effect (log s)) /\
   map ver_of oks = zseq (snd st0 + 1) (List.length oks) /\
-  ((forall t, mid_write (pcs s t) = false) -> (objs s, ver s) = replay st0 (map e_req oks)).
+  ((forall t, mid_write (pcs s t) = false) ->
+     (objs s, ver s) = replay st0 (filter has_effect (log s)) /\
+     ((forall e, In e (log s) -> e_res e <> RErr true) -> (objs s, ver s) = replay st0 oks)).
 Proof. exact store_is_replay. Qed.
 Print Assumptions C18_store_is_sequential_replay.
+
+(** the clause as stated in the property: schedules without failing cluster operations *)
+Theorem C18_store_is_replay_of_successes : forall (cfg : tid -> thr) (st0 : store) sched s,
+  run ideal cfg (init st0) sched = Some s ->
+  (forall t, ~ In (t, LFault) sched) ->
+  (forall t, mid_write (pcs s t) = false) ->
+  (objs s, ver s) = replay st0 (filter is_ok (log s)).
+Proof. exact store_is_replay_no_fault. Qed.
+Print Assumptions C18_store_is_replay_of_successes.
 
 (** the pinned code: cluster.Mutex(name) builds a new process-local lock per call; two handles on
     one member hold the lock at the same time (witness of KF-C18-handle-local-lock) *)
@@ -122,3 +136,12 @@ Example C18_nonvacuous :
   | None => False
   end.
 Proof. exact nonvacuous. Qed.
+
+Example C18_nonvacuous_fault :
+  match run ideal (fun t => match t with 2%nat => {| t_mem := 0%nat; t_hnd := 0%nat; t_req := RUpdate "a" "K1" "z"; t_to := false |} | _ => ex_cfg t end)
+            (init ([], 7)) ex_fault_sched with
+  | Some s => map e_res (log s) = [ROk 201 8; RErr true; RErr false; RFail 409] /\
+              objs s = [("a"%string, ("K1"%string, "z"%string))] /\ ver s = 8 /\ queue s = []
+  | None => False
+  end.
+Proof. exact nonvacuous_fault. Qed.
